@@ -70,6 +70,13 @@ class System:
         for k in KVALS:
             ops.append(["set_K", k])
         ops += [["eval", "Y", 2], ["eval", "S", 3], ["eval", "X", 1], ["eval", "F", 0], ["eval_all"], ["eval_all_desc"]]
+        # edits the API refuses (a constant given as numpy integer / Fraction, an initial value given as int): the refusal leaves no trace
+        for kv in KVALS:
+            ops.append(["refused_K", "np.int64", kv])
+        ops.append(["refused_K", "Fraction", KVALS[1]])
+        ops.append(["refused_init", 7])
+        ops.append(["refused_init", 1])
+        ops.append(["reassign_S"])        # the stock's (unchanged) equation assigned again: its function is rebuilt
         ops.append(["reset_cache"])
         for i in range(len(RUNSETS)):
             ops.append(["run", i])
@@ -93,6 +100,25 @@ class System:
             elif k == "set_K":
                 env["K"].equation = op[1]
                 ref["K"] = op[1]
+            elif k == "refused_K":
+                import numpy
+                from fractions import Fraction
+                val = numpy.int64(int(op[2])) if op[1] == "np.int64" else Fraction(int(op[2]))
+                try:
+                    env["K"].equation = val
+                    ref["K"] = float(op[2])      # accepted after all: then it is the constant's value
+                except Exception as e:
+                    if type(e).__name__ != "ElementError":
+                        raise
+            elif k == "refused_init":
+                try:
+                    env["S"].initial_value = int(op[1])
+                    ref["init"] = {7: "seven", 1: "one"}[op[1]]      # accepted after all
+                except Exception as e:
+                    if type(e).__name__ != "ElementError":
+                        raise
+            elif k == "reassign_S":
+                env["S"].equation = env["F"]
             elif k == "eval":
                 v = env[op[1]](op[2])
                 w = self._ref(ref).value(op[1], op[2])
@@ -147,7 +173,7 @@ class System:
     def key(self, impl, ref):
         memo = tuple(sorted((n, tuple(sorted((float(t), round(float(v), 9)) for t, v in d.items())))
                             for n, d in impl.m.memo.items() if n in ("K", "X", "F", "S", "Y", "W")))
-        hidden = (explore.hidden_shape(impl.m),) + tuple(explore.hidden_shape(impl.env[n]) for n in sorted(impl.env) if hasattr(impl.env[n], "__dict__"))
+        hidden = (explore.hidden_shape(impl.m),) + tuple(explore.hidden_shape(impl.env[n], scalars=True) for n in sorted(impl.env) if hasattr(impl.env[n], "__dict__"))
         return (tuple(sorted(ref.items())), memo, hidden)
 
 
@@ -166,10 +192,11 @@ def run(ctx):
     cov = {
         "states": res.states, "transitions": res.transitions, "traces_validated_against_impl": res.transitions,
         "samples": res.samples, "depth": depth, "per_level": res.per_level,
-        "rule": "(a) BFS over set_equation(F|X|Y, 2 variants) / set initial value (2 numbers, constant) / set constant / eval (4 single "
+        "rule": "(a) BFS over set_equation(F|X|Y|W, 2 variants) / set initial value (2 numbers, constant) / set constant / refused edits (constant as numpy.int64 or Fraction, initial value as int) / re-assigning the stock's equation / eval (4 single "
                 "evaluations, all ascending, all descending) / scenario reset_cache / run with 5 requested-equation lists / run twice; "
                 "state = definitions + memo contents",
     }
+    cov["part_c"] = part_c(ctx)
     try:
         from checks import c08b
         c08b.run_part(ctx, cov)
@@ -179,7 +206,42 @@ def run(ctx):
                                  "reference = freshly evaluated independent Euler interpreter on the final definitions"])
 
 
+# ---- (c) one value per (element, time) without a run: every order of direct evaluations of a stochastic element and its dependents
+
+def part_c(ctx):
+    from checks import c08b
+    calls = [(n, t) for n in ("R", "Y", "Z") for t in (0, 1)]
+    n = 0
+    for how in ("call", "evaluate_equation"):
+        for order in itertools.permutations(calls, 4):
+            n += 1
+            v = run_order(how, list(order))
+            if v:
+                ctx.violation("C08/ambiguous/direct-%s/%s-first" % (how, order[0][0]), {"part": "c", "how": how, "order": [list(x) for x in order]}, v)
+    return {"orders": n, "rule": "every sequence of 4 distinct direct evaluations out of {R,Y,Z} x {0,1} (R stochastic, Y = R*1, Z = R*1), each value "
+                                 "asked twice, through element(t) and Model.evaluate_equation: Y(t) = R(t) = Z(t) and a repeated call returns the same number"}
+
+
+def run_order(how, order):
+    from checks import c08b
+    m, counter = c08b.build()
+    env = {"R": m.converters["R"], "Y": m.converters["Y"], "Z": m.converters["Z"]}
+    seen = {}
+    for (name, t) in order + order:
+        v = env[name](t) if how == "call" else m.evaluate_equation(name, t)
+        if (name, t) in seen and seen[(name, t)] != v:
+            return "%s(%r) returned %r, asked again %r (order %r)" % (name, t, seen[(name, t)], v, order)
+        seen[(name, t)] = v
+    for t in (0, 1):
+        vals = set(v for (nm, tt), v in seen.items() if tt == t)
+        if len(vals) > 1:
+            return "t=%r: %r (R computed %d times)" % (t, {nm: v for (nm, tt), v in seen.items() if tt == t}, len(counter["calls"]))
+    return None
+
+
 def replay(case):
+    if case.get("part") == "c":
+        return run_order(case["how"], [tuple(x) for x in case["order"]])
     if case.get("part") == "b":
         from checks import c08b
         return c08b.replay(case)
